@@ -7,7 +7,8 @@
 (* of the child process), and once the call has returned the goroutines with engine frames are the   *)
 (* ones that existed before (g_after = g_before, counted after the goroutines have settled).         *)
 (*                                                                                                  *)
-(* Layer B, reduced to what decides the one leak the pipeline lexer || channel || parser allows: the *)
+(* Layer B (model-checked on its own in spec/LexPipe.tla), reduced to what decides the one leak the  *)
+(* pipeline lexer || channel || parser allows: the                                                   *)
 (* lexer goroutine sends ntok tokens into a channel of capacity Cap; the parser holds LookAhead      *)
 (* tokens plus one per token it consumed and may return early.  The sender terminates iff what is    *)
 (* left fits the buffer.  LL1!Run bounds what the parser can have consumed.                          *)
